@@ -58,6 +58,211 @@ def enc_matrix(A):
     return 1000, encode.mat_int(R)
 
 
+# --------------------------------------------- argument dtype / memory-layout families
+# Shared by the drivers c03 c04 c08 c09 c10 c12 c14 c15 c17 c18 c20.  A caller's matrix is not
+# always a C-contiguous float64 array: the SAME mathematical matrix is handed to bctpy as another
+# dtype / memory layout, while the record for TLC is always encoded from the float64 original.
+# A (dtype, layout) pair is drawn per input from the seeded RNG over one of the universes below;
+# `admissible` then maps the draw to what a given ROUTINE may be handed.  Three restrictions, each
+# a statement about the routine's documented domain, not about its code:
+#  (bool)    a boolean array is a binary network, not a weight matrix: numpy refuses `-`/sign on
+#            it and the weighted routines answer with a TypeError - a refusal, not a wrong value.
+#            Only routines documented for BINARY networks get bool; the others get int32.
+#  (uint8)   unsigned integers wrap around modulo 2^k as soon as entries of a W-typed array are
+#            subtracted or multiplied up (`Knm[i,:] - Knm[i,ma]`, `abs(W - W.T)`, matrix powers):
+#            a numpy pitfall on the caller's side.  Unsigned types go only to routines that
+#            convert/copy their argument to float first (floats_first=True); others get int32.
+#  (float32) where the code has absolute decision thresholds (floyd's 1e-10 tie tolerance,
+#            modularity gains) float32 rounding noise (1e-7) legitimately changes decisions, and
+#            exact-fraction clauses with tolerance 2e-6 can fail on accumulated float32 error.
+#            float32 goes only to routines whose outputs are integer-valued / structural (degrees,
+#            components, cores, binary distances, thresholding supports); others get float64.
+DT_BIN = ("float64", "float32", "int64", "int32", "uint8", "bool")       # 0/1 matrices
+DT_COUNT = ("float64", "float32", "int64", "int32", "uint8")             # small non-negative integers
+DT_SIGNED = ("float64", "float32", "int64", "int32")                     # small signed integers
+DT_FLOAT = ("float64",)                                                  # anything else: layouts only
+LAYOUTS = ("C", "F", "T", "slice", "stride")
+PLAIN = ("float64", "C")
+
+
+def admissible(dtype, binary=False, structural=False, floats_first=False):
+    """the dtype a routine is actually handed for a drawn `dtype` (restrictions above)"""
+    if dtype == "bool" and not binary:
+        dtype = "int32"
+    if dtype == "uint8" and not floats_first:
+        dtype = "int32"
+    if dtype == "float32" and not structural:
+        dtype = "float64"
+    return dtype
+
+
+def draw_variant(rng, family, p_plain=0.0):
+    """-> (dtype, layout) from the seeded RNG; (float64, C) with probability p_plain, otherwise
+    uniform over family x LAYOUTS minus the plain pair (every combination can co-occur)."""
+    if rng.random() < p_plain:
+        return PLAIN
+    while True:
+        v = (rng.choice(family), rng.choice(LAYOUTS))
+        if v != PLAIN:
+            return v
+
+
+def as_variant(A, dtype="float64", layout="C"):
+    """the array actually handed to bctpy: same values, other dtype / strides.  The cast must be
+    lossless (MachineryError otherwise: the harness, not the code, would be at fault)."""
+    A = np.asarray(A)
+    B = A.astype(dtype)
+    if A.shape != B.shape or not np.array_equal(B.astype(float), A.astype(float), equal_nan=True):
+        raise core.MachineryError("lossy cast of an input to %s" % dtype)
+    if B.ndim != 2 or layout == "C":
+        return np.ascontiguousarray(B)
+    if layout == "F":
+        return np.asfortranarray(B)
+    if layout == "T":                       # transposed view of a C-contiguous buffer
+        return B.T.copy().T
+    r, c = B.shape
+    if layout == "slice":                   # window of a larger array (junk around it)
+        big = np.full((r + 2, c + 3), 1).astype(dtype)
+        big[1:r + 1, 2:c + 2] = B
+        return big[1:r + 1, 2:c + 2]
+    if layout == "stride":                  # every second row/column of a larger array
+        big = np.full((2 * r, 2 * c), 1).astype(dtype)
+        big[::2, ::2] = B
+        return big[::2, ::2]
+    raise core.MachineryError("unknown layout %r" % layout)
+
+
+_FAMILY_TAG = {"float64": "", "float32": "f32", "int64": "int", "int32": "int", "uint8": "u8", "bool": "bool"}
+
+
+def tag_failures(ctx, jobs, recs, verdicts):
+    """records for core.Ctx.judge: a FAILING record whose input was not a float64 array gets its
+    function name suffixed with the dtype family ('invert@int'), so that a dtype-specific failure
+    and a failure on float64 input are distinct (function, clause, class) keys - unless the plain
+    key is a registered known finding.  The records TLC judged are untouched."""
+    out = []
+    for j, r, v in zip(jobs, recs, verdicts):
+        tag = _FAMILY_TAG.get(j.get("dtype", "float64"), "")
+        if tag and v[0] != "ok" and not v[0].startswith("skip:") and not r.get("timeout") \
+                and core.match_finding(ctx.findings, r.get("fn", "?"), v[0], v[2]) is None:
+            r = dict(r, fn="%s@%s" % (r.get("fn", "?"), tag))
+        out.append(r)
+    return out
+
+
+def variant_counts(jobs):
+    """{dtype/layout: n} for the evidence file"""
+    d = {}
+    for j in jobs:
+        k = "%s/%s" % (j.get("dtype", "float64"), j.get("layout", "C"))
+        d[k] = d.get(k, 0) + 1
+    return d
+
+
+# ------------------------------------------------------------- structured supports (edge lists)
+def s_path(n):
+    return [(i, i + 1) for i in range(n - 1)]
+
+
+def s_cycle(n):
+    return [(i, (i + 1) % n) for i in range(n)] if n > 2 else s_path(n)
+
+
+def s_star(n):
+    return [(0, j) for j in range(1, n)]
+
+
+def s_complete(n):
+    return [(i, j) for i in range(n) for j in range(i + 1, n)]
+
+
+def s_bipartite(a, b):
+    return [(i, a + j) for i in range(a) for j in range(b)]
+
+
+def s_clique_ring(k, m):
+    """k cliques of m nodes, consecutive cliques joined by one edge (a ring when k > 2)"""
+    E = []
+    for c in range(k):
+        E += [(c * m + i, c * m + j) for i in range(m) for j in range(i + 1, m)]
+    for c in range(k if k > 2 else k - 1):
+        E.append((c * m + m - 1, ((c + 1) % k) * m))
+    return E
+
+
+def s_caterpillar(rng, n):
+    """tree with a long chain (spine of ~2n/3 nodes) and leaves hung on random spine nodes"""
+    s = max(2, (2 * n) // 3)
+    E = s_path(s)
+    for v in range(s, n):
+        E.append((rng.randrange(s), v))
+    return E
+
+
+def s_components(parts):
+    """disjoint union of (n, edges) parts -> (n_total, edges)"""
+    off, E = 0, []
+    for n, edges in parts:
+        E += [(i + off, j + off) for i, j in edges]
+        off += n
+    return off, E
+
+
+def structured_support(rng, nmin=5, nmax=10):
+    """-> (name, n, undirected edge list i<j after a random renumbering): the families that small
+    enumerations and G(n,p) hardly ever produce - long paths/cycles, stars, complete and complete
+    bipartite graphs, caterpillars, rings of cliques, several components of equal / different
+    sizes, isolated nodes."""
+    kind = rng.choice(["path", "cycle", "star", "complete", "bipartite", "caterpillar", "cliquering",
+                       "equal-components", "unequal-components", "isolated+"])
+    n = rng.randint(nmin, nmax)
+    if kind == "path":
+        E = s_path(n)
+    elif kind == "cycle":
+        E = s_cycle(n)
+    elif kind == "star":
+        E = s_star(n)
+    elif kind == "complete":
+        n = min(n, 7)
+        E = s_complete(n)
+    elif kind == "bipartite":
+        a = rng.randint(1, n - 1)
+        E = s_bipartite(a, n - a)
+    elif kind == "caterpillar":
+        E = s_caterpillar(rng, n)
+    elif kind == "cliquering":
+        m = rng.choice([2, 3, 4])
+        k = max(2, n // m)
+        n, E = k * m, s_clique_ring(k, m)
+    elif kind == "equal-components":
+        m = rng.choice([2, 3, 4])
+        part = rng.choice([s_path, s_cycle, s_complete, s_star])(m)
+        n, E = s_components([(m, part)] * max(2, n // m))
+    elif kind == "unequal-components":
+        a = rng.randint(2, n - 2)
+        f, g = rng.choice([s_path, s_cycle, s_complete, s_star]), rng.choice([s_path, s_cycle, s_star])
+        n, E = s_components([(a, f(a)), (n - a, g(n - a))])
+    else:
+        m = rng.randint(2, n - 2)
+        n, E = s_components([(m, rng.choice([s_path, s_cycle, s_complete, s_star])(m))] + [(1, [])] * (n - m))
+    perm = list(range(n))
+    rng.shuffle(perm)
+    E = sorted(set(tuple(sorted((perm[i], perm[j]))) for i, j in E if i != j))
+    return kind, n, E
+
+
+def orient(rng, edges):
+    """each undirected edge one way, the other way, or both (RNG-drawn) -> arc list"""
+    arcs = []
+    for (i, j) in edges:
+        o = rng.randrange(3)
+        if o in (0, 2):
+            arcs.append((i, j))
+        if o in (1, 2):
+            arcs.append((j, i))
+    return arcs
+
+
 # ------------------------------------------------------- TLC-enumerated partitions
 def model_partitions(ctx, n):
     """All (partition as restricted growth string, injective renaming into the pool
